@@ -65,4 +65,18 @@ CLAIMS["C14"] = {
     "design_ref": "DESIGN.md §4 C14",
 }
 
+CLAIMS["C10"] = {
+    "technique": "who-may-write and lock typestate analysis over the MIR event graph; field-write provenance",
+    "text": "Decides the exclusion and framing skeleton for every poll order and every transport split: all transport writes/flushes go "
+            "through the shared mutex guard kept by the repeatable lock future, or an exclusively owned writer (R10.1); the guard is released "
+            "only at a record boundary - after the remaining-lengths test reads zero / after the reply buffer was seen empty, with no data "
+            "write in between, never on Pending/Err/WriteZero paths (R10.2); a record is (re)started only when a new lock future is created, "
+            "mid-record the header fields change only by written amounts (R10.3); the iov triple is header-tail, payload-tail of "
+            "buf[..orig_len], padding, in order, and the success return is the truncated slice's length (R10.4); reply bytes are consumed "
+            "only by the amount confirmed written (R10.5). Does NOT decide the arithmetic that distributes a partial vectored write over the "
+            "three slices, nor padding values (C17).",
+    "note": "futures Mutex exclusion and OwnedMutexGuard semantics trusted; implicit release by dropping a writer mid-record is outside the statement ('each successful write').",
+    "design_ref": "DESIGN.md §4 C10",
+}
+
 PENDING_REASON = "rules for this property are not built yet (build in progress; DESIGN.md §7 gives the order)"
